@@ -28,6 +28,16 @@ func wrapLine(pl, indent string) string {
 	return ""
 }
 
+func skipLine(pl, indent string) string {
+	switch pl {
+	case "yes":
+		return indent + "// goverter:skipCopySameType yes\n"
+	case "no":
+		return indent + "// goverter:skipCopySameType no\n"
+	}
+	return ""
+}
+
 func regexLine(pl, indent string) string {
 	switch pl {
 	case "match":
@@ -53,6 +63,16 @@ func chainOf(msg string) []string {
 	return out
 }
 
+func aliasOf(alias map[int][]bool, i int) []bool {
+	out := []bool{false, false, false, false}
+	for m := 0; m < 2; m++ {
+		if a, ok := alias[2*i+m]; ok && len(a) == 2 {
+			out[2*m], out[2*m+1] = a[0], a[1]
+		}
+	}
+	return out
+}
+
 // cmdWitness: wrapErrors effect witnesses (C12 on generated helper methods, C18 fmt import).
 func cmdWitness(args []string) {
 	fs := flag.NewFlagSet("witness", flag.ExitOnError)
@@ -72,8 +92,13 @@ func cmdWitness(args []string) {
 	b := hx.NewBatch(*work)
 	b.WriteGoMod()
 	var src strings.Builder
-	src.WriteString("package p\n\nimport \"errors\"\n\ntype Inner struct{ V string }\ntype Inner2 struct{ V int }\ntype S1 struct{ I Inner }\ntype T1 struct{ I Inner2 }\ntype S2 struct{ J Inner }\ntype T2 struct{ J Inner2 }\ntype S3 struct{ K string }\ntype T3 struct{ K int }\ntype S4 struct{ V string }\ntype T4 struct{ V string }\ntype S5 struct{ V string }\ntype T5 struct{ V string }\n\nfunc Fn(v string, kx int) string { return v }\n\nfunc Atoi(s string) (int, error) { return 0, errors.New(\"boom\") }\n")
+	src.WriteString("package p\n\nimport \"errors\"\n\ntype Inner struct{ V string }\ntype Inner2 struct{ V int }\ntype S1 struct{ I Inner }\ntype T1 struct{ I Inner2 }\ntype S2 struct{ J Inner }\ntype T2 struct{ J Inner2 }\ntype S3 struct{ K string }\ntype T3 struct{ K int }\ntype In6 struct{ L []int }\ntype Cu struct{ Tags []int }\ntype CuD struct{ Tags []int }\ntype S6 struct {\n\tI In6\n\tC Cu\n}\ntype T6 struct {\n\tI In6\n\tC CuD\n}\ntype S7 struct {\n\tI In6\n\tC Cu\n}\ntype T7 struct {\n\tI In6\n\tC CuD\n}\ntype S4 struct{ V string }\ntype T4 struct{ V string }\ntype S5 struct{ V string }\ntype T5 struct{ V string }\n\nfunc Fn(v string, kx int) string { return v }\n\nfunc Atoi(s string) (int, error) { return 0, errors.New(\"boom\") }\n")
 	for i, s := range scens {
+		if s.Kind == "skipcopy" {
+			fmt.Fprintf(&src, "\n// goverter:converter\n%s// goverter:output:file ../gen/c%d.go\n// goverter:output:package %s/gen\ntype C%d interface {\n%s\tM1(source S6) T6\n%s\tM2(source S7) T7\n}\n",
+				skipLine(s.PC, ""), i, b.Mod, i, skipLine(s.P1, "\t"), skipLine(s.P2, "\t"))
+			continue
+		}
 		if s.Kind == "ctxregex" {
 			fmt.Fprintf(&src, "\n// goverter:converter\n%s// goverter:output:file ../gen/c%d.go\n// goverter:output:package %s/gen\ntype C%d interface {\n%s\t// goverter:map V | Fn\n\tM1(source S4, kx int) T4\n%s\t// goverter:map V | Fn\n\tM2(source S5, kx int) T5\n}\n",
 				regexLine(s.PC, ""), i, b.Mod, i, regexLine(s.P1, "\t"), regexLine(s.P2, "\t"))
@@ -98,7 +123,16 @@ func cmdWitness(args []string) {
 	inner := stv(map[string]any{"k": "b", "tok": "a"})
 	for i, o := range outs {
 		for m := 1; m <= 2; m++ {
-			if o.Gen == "ok" && scens[i].Kind == "ctxregex" {
+			if o.Gen == "ok" && scens[i].Kind == "skipcopy" {
+				if m == 1 {
+					b.WriteOutputs(i, o.Files)
+				}
+				b.OK[2*i+m-1] = true
+				b.Reg[2*i+m-1] = fmt.Sprintf("reflect.ValueOf((&gen.C%dImpl{}).M%d)", i, m)
+				sl := func(n int) any { return map[string]any{"k": "s", "a": "i", "es": []any{map[string]any{"k": "b", "tok": fmt.Sprintf("#%d", n)}}} }
+				arg := stv(stv(sl(1)), stv(sl(2)))
+				w.Write(map[string]any{"ins": []any{}, "calls": []any{map[string]any{"args": []any{arg}, "dump": []int{}}}})
+			} else if o.Gen == "ok" && scens[i].Kind == "ctxregex" {
 				if m == 1 {
 					b.WriteOutputs(i, o.Files) // compiled with the rest of the gen package; not executed
 				}
@@ -125,8 +159,26 @@ func cmdWitness(args []string) {
 	recs, _, err := b.RunDriver(drvScen, "seq")
 	hx.Must(err)
 	msg := map[int]string{}
+	alias := map[int][]bool{}
 	for _, r := range recs {
-		msg[int(r["id"].(float64))], _ = r["err"].(string)
+		id := int(r["id"].(float64))
+		msg[id], _ = r["err"].(string)
+		// skipcopy witnesses: does the result share the slices of the source? (address label of the input allocation)
+		if outs, ok := r["outs"].([]any); ok && len(outs) > 0 {
+			if st, ok := outs[0].(map[string]any); ok && st["k"] == "st" {
+				if fs, ok := st["fs"].([]any); ok && len(fs) == 2 {
+					lab := func(f any) bool {
+						inner, _ := f.(map[string]any)["fs"].([]any)
+						if len(inner) != 1 {
+							return false
+						}
+						a, _ := inner[0].(map[string]any)["a"].(string)
+						return a != "" && a != "o"
+					}
+					alias[id] = []bool{lab(fs[0]), lab(fs[1])}
+				}
+			}
+		}
 	}
 	obs, err := hx.NewNDWriter(*obsFile)
 	hx.Must(err)
@@ -142,7 +194,7 @@ func cmdWitness(args []string) {
 			msg[2*i+1] = "" // M2 of a direct program is only there to keep the registry shape; it is not judged
 		}
 		obs.Write(map[string]any{"id": i, "kind": scens[i].Kind, "pc": scens[i].PC, "p1": scens[i].P1, "p2": scens[i].P2, "gen": o.Gen, "why": why, "compiles": !badc,
-			"chain1": chainOf(msg[2*i]), "chain2": chainOf(msg[2*i+1]), "msg1": msg[2*i], "imports": imps, "decls": decls, "diag": firstLine(o.Why)})
+			"alias": aliasOf(alias, i), "chain1": chainOf(msg[2*i]), "chain2": chainOf(msg[2*i+1]), "msg1": msg[2*i], "imports": imps, "decls": decls, "diag": firstLine(o.Why)})
 	}
 	js, _ := json.Marshal(map[string]any{"scenarios": len(scens), "executions": len(recs), "gen_s": b.Timing["gen"].Seconds(), "build_s": b.Timing["build"].Seconds()})
 	fmt.Println("HARNESS-SUMMARY " + string(js))
